@@ -36,6 +36,13 @@ def railed_spec(case):
             c["p"] = [rails.get(p, p) for p in c["p"]]
     if case.get("who"):
         spec = with_phases(spec, PH2, {case["who"]: case["pc"]})
+    if case.get("sumnames"):   # component names that begin with the words of the summary rows
+        ren = {}
+        for c, nm in zip(spec["comps"][1:], ["System controller", "Subsystem LDO", "System total load", "Subsystem S"]):
+            ren[c["n"]] = nm
+        for c in spec["comps"]:
+            c["n"] = ren.get(c["n"], c["n"])
+            c["p"] = [ren.get(q, q) for q in c["p"]]
     return spec
 
 
@@ -236,6 +243,8 @@ def gen_cases(tier):
                 if any(mask) and n <= 2:
                     yield dict(fam="tree", f=f, pal=pal, mask=list(mask), by_rail=False, rerail=True)
                     yield dict(fam="tree", f=f, pal=pal, mask=list(mask), by_rail=True, hot=True)
+                if any(mask) and n <= 3:
+                    yield dict(fam="tree", f=f, pal=pal, mask=list(mask), by_rail=False, sumnames=True)
                 if n <= 2:
                     for kc in ("load2series", "series2load"):
                         for af in (False, True):
